@@ -214,5 +214,92 @@ def u_max_flow_check():
                 abstractions=["float('-inf') is an arbitrary real (the result for an edge-less/fully ignored graph is not claimed)"])
 
 
+def u_constraint_validators():
+    """AbstractPathModelDAG._check_valid_subpath_constraints / AbstractWalkModelDiGraph._check_valid_subset_constraints:
+    normal return  <=>  every constraint is a non-empty list of 2-tuples that are edges of the graph;  otherwise ValueError."""
+    ISLIST = z3.Function("constraint_is_a_list", INT, BOOL)
+    CL = z3.Function("constraint_len", INT, INT)
+    ISTUP = z3.Function("element_is_a_tuple", INT, INT, BOOL)
+    ELEN = z3.Function("element_len", INT, INT, INT)
+    CU, CV = z3.Function("element_first", INT, INT, INT), z3.Function("element_second", INT, INT, INT)
+    EDGE = z3.Function("is_edge", INT, INT, BOOL)
+
+    class Elem:
+        def __init__(self, j, t): self.j, self.t = lift(j), lift(t)
+        def __getitem__(self, i):
+            if i not in (0, 1):
+                raise Unsupported("element index")
+            core.ctx().prove("pre:e[%d]-only-on-a-2-tuple" % i, z3.And(ISTUP(self.j, self.t), ELEN(self.j, self.t) == 2), kind="pre")
+            return Sym((CU if i == 0 else CV)(self.j, self.t))
+
+    class Cons(SymSeq):
+        pass
+
+    def isinstance_(x, T):
+        if isinstance(x, Elem) and T is tuple:
+            return Sym(ISTUP(x.j, x.t))
+        if isinstance(x, Cons) and T is BUILTINS["list"]:
+            return Sym(ISLIST(x.j))
+        if isinstance(x, (Elem, Cons)):
+            raise Unsupported("isinstance(%s, %s)" % (type(x).__name__, T))
+        return BUILTINS["isinstance"](x, T)
+
+    def len_(x):
+        if isinstance(x, Elem):
+            return Sym(ELEN(x.j, x.t))
+        return BUILTINS["len"](x)
+
+    def good(j):
+        t = z3.Int("gt")
+        return z3.And(ISLIST(j), CL(j) >= 1, z3.ForAll([t], z3.Implies(z3.And(t >= 0, t < CL(j)), z3.And(ISTUP(j, t), ELEN(j, t) == 2, EDGE(CU(j, t), CV(j, t))))))
+
+    def mk(relpath, qual, attr):
+        st = {}
+
+        def inv0(ns, seq, done):
+            j = z3.Int("vj")
+            return {"every-constraint-so-far-is-a-non-empty-list-of-edges-of-the-graph": z3.ForAll([j], z3.Implies(z3.And(j >= 0, j < lift(done)), good(j)))}
+
+        def on_entry1(ns, it=None):
+            st["cur"] = ns["subpath" if "subpath" in ns else "subset"].j
+
+        def inv1(ns, seq, done):
+            t = z3.Int("vt")
+            j = st["cur"]
+            return {"every-element-so-far-is-an-edge": z3.ForAll([t], z3.Implies(z3.And(t >= 0, t < lift(done)), EDGE(CU(j, t), CV(j, t))))}
+
+        def h(c, f):
+            m = c.fresh_const("n_constraints", INT)
+            c.assume(m >= 0)
+            j, t = z3.Ints("hj ht")
+            c.assume(z3.ForAll([j], CL(j) >= 0))
+
+            def cons_at(jx):
+                s_ = Cons(CL(lift(jx)), lambda tx: Elem(jx, tx), None, "constraint")
+                s_.j = lift(jx)
+                return s_
+
+            class G:
+                def has_edge(self, a, b): return core.ctx().decide(EDGE(lift(a), lift(b)), "has-edge")
+
+            class Me(Tracked):
+                pass
+            me = Me()
+            me.G = G()
+            setattr(me, attr, SymSeq(m, cons_at, None, attr))
+            try:
+                f(me)
+            except ValueError:
+                c.prove("xpost:ValueError-only-if-some-constraint-is-not-a-non-empty-list-of-edges-of-the-graph", z3.Exists([j], z3.And(j >= 0, j < m, z3.Not(good(j)))), prop=P, kind="xpost")
+                return
+            c.prove("post:normal-return-only-if-every-constraint-is-a-non-empty-list-of-2-tuples-that-are-edges-of-the-graph", z3.ForAll([j], z3.Implies(z3.And(j >= 0, j < m), good(j))), prop=P)
+        var = "subpath" if "subpath" in attr else "subset"
+        loops = {0: dict(inv=inv0, prop=P, keep=(var, "e")), 1: dict(inv=inv1, prop=P, on_entry=on_entry1, keep=("e",))}
+        return Unit(relpath, qual, h, globs=dict(utils=UtilsStub, isinstance=isinstance_, len=len_), loops=loops, props=[P],
+                    assumptions=["elements are modelled by what the validator reads: is-a-tuple, length, first and second component; has_edge answers edge membership (A2)"])
+    return [mk("flowpaths/abstractpathmodeldag.py", "AbstractPathModelDAG._check_valid_subpath_constraints", "subpath_constraints"),
+            mk("flowpaths/abstractwalkmodeldigraph.py", "AbstractWalkModelDiGraph._check_valid_subset_constraints", "subset_constraints")]
+
+
 def all_units():
-    return [GuardUnit(r, c) for r, c in KMODELS] + [u_max_flow_check()]
+    return [GuardUnit(r, c) for r, c in KMODELS] + [u_max_flow_check()] + u_constraint_validators()
